@@ -1124,8 +1124,15 @@ class Collocator:
             # should stay as a dimension name but without own labels. I.e. we
             # want to drop it. Because it still may a MultiIndex, we cannot
             # drop it directly but we have to set it to something different.
+            if main_coord_is_multiindex:
+                # A (multi-)index cannot be overwritten directly, we have to
+                # drop it together with its levels first:
+                output[name] = output[name].drop_vars([
+                    "collocation",
+                    *output[name].get_index("collocation").names
+                ])
             output[name]["collocation"] = \
-                np.arange(output[name]["collocation"].size)
+                np.arange(output[name].sizes["collocation"])
 
             if main_coord_is_multiindex:
                 # Now, since we unstacked the multi-index, we can add the
